@@ -1,4 +1,5 @@
 """C13 - every block token reports the source line on which it starts (E2 with line bookkeeping)."""
+import re
 from mc import core, trees, leafspell
 
 ID = 'C13'
@@ -58,6 +59,7 @@ def check_lines(md, exp):
     except (Exception, core.EvalTimeout):
         return ('skip', 'parse raises (C01)')
     got = token_lines(doc)
+    src_lines = md.split('\n')
     exp = [(trees.KINDMAP[k], ln) for k, ln in exp]
     if [g[0] for g in got] != [e[0] for e in exp]:
         return ('skip', 'token tree has a different shape (C03)')
@@ -76,7 +78,21 @@ def check_lines(md, exp):
                 for cell in row.children:
                     if cell.line_number != want:
                         return dict(sig='line-number-wrong:TableCell', detail='reported %r true %r' % (cell.line_number, want))
+            # independent of how many rows the parser kept: a row that holds a word found on exactly one source line starts there
+            for row in [t.header] + list(t.children):
+                for w in re.findall(r'[A-Za-z][A-Za-z0-9]*', _text_of(row)):
+                    at = [i for i, l in enumerate(src_lines, 1) if re.search(r'(?<![A-Za-z0-9])' + w + r'(?![A-Za-z0-9])', l)]
+                    if len(at) == 1 and (row.line_number != at[0] or any(c.line_number != at[0] for c in row.children)):
+                        return dict(sig='line-number-wrong:TableRow-located-by-word', detail='row holding %r reports %r (cells %r), the word is on line %r'
+                                    % (w, row.line_number, [c.line_number for c in row.children], at[0]))
     return None
+
+
+def _text_of(t):
+    from mistletoe import span_token
+    if isinstance(t, span_token.RawText):
+        return t.content + ' '
+    return ''.join(_text_of(c) for c in (getattr(t, 'children', None) or ()))
 
 
 LEAF_KIND = {'fence': 'fence', 'atx': 'atx', 'setext': 'setext', 'indented': 'indented', 'indented-tab': 'indented', 'html': 'html',
@@ -172,7 +188,7 @@ def lazy_documents():
         yield ('> ' * n + 'w\n' + '> ' * n + '\n' + '> ' * n + '# h\n', [('quote', 1)] * n + [('para', 1), ('atx', 3)])
         yield ('- ' * n + 'w\n', [x for _ in range(n) for x in (('list', 1), ('item', 1))] + [('para', 1)])
     # tables whose rows have fewer / as many / more cells than the delimiter row has columns (every cell reports the row's line)
-    rows = ['| c |', '| c | d |', '| c | d | e |', '| c | d | e | f |', '|', '| | | |', '|---|---|', '| x | y |', '- | -']
+    rows = ['| c1 |', '| c2 | d |', '| c3 | d | e |', '| c4 | d | e | f |', '|', '| | | |', '|---|---|', '| x | y |', '- | -', '| :-: | -- |', '| z |']
     for k in range(1, len(rows) + 1):
         for perm in __import__('itertools').permutations(rows, k) if k <= 2 else [tuple(rows[:k])]:
             t = ['| h | k |', '|---|---|'] + list(perm)
